@@ -759,6 +759,20 @@ variable {κ : Type} [DecidableEq κ]
 
 def init (cap : Int) : State κ := { p := PConn.init, lru := LRU.new cap }
 
+/-- the same action of the finite-map machine -/
+def Action.toP : Action κ → PConn.Action κ
+  | .call b es => .call b es
+  | .lookup c => .lookup c
+  | .spawn c => .spawn c
+  | .srvPrepare f r => .srvPrepare f r
+  | .complete f => .complete f
+  | .observe c a => .observe c a
+  | .finish c => .finish c
+  | .cancel c => .cancel c
+  | .abandon c => .abandon c
+  | .abandonLate c => .abandonLate c
+  | .srvLate c a => .srvLate c a
+
 /-- whatever left the finite-map cache by `lru.Remove` (failing flight, evictPreparedID) leaves the LRU -/
 def syncRm (l : LRU.Cache κ Nat) : List (Ev κ) → LRU.Cache κ Nat
   | [] => l
